@@ -209,6 +209,18 @@ def run_srv(eng, case):
                         out.append(f'free {kind} {idx}')
                     else:
                         out.append('skip')
+                elif w[0] == 'derive':
+                    # a SECOND bus object on a live bus's index is created and dropped: the owner keeps its range
+                    lst = objs[int(w[1])]
+                    if lst and int(w[1]) < 2:
+                        import gc
+                        owner = lst[int(w[2]) % len(lst)]
+                        d = owner.sub_bus(0, owner.channels) if int(w[2]) % 2 else type(owner)(owner.channels, s, owner.index)
+                        del d
+                        gc.collect()
+                        out.append('derive ok')
+                    else:
+                        out.append('skip')
                 elif w[0] == 'refuse':
                     # a constructor call that must be refused: afterwards every allocator is as it was
                     try:
